@@ -429,8 +429,101 @@ fn run_stop(c: &SchedCase) -> ExecOutcome {
     o
 }
 
+/// stop() and then a wake of the future, both issued on the loop thread from inside a dispatch (a timer callback or the
+/// per-iteration closure): the stop came first, so block_on returns None without polling the future again
+fn run_stop_then_wake(c: &SchedCase) -> ExecOutcome {
+    let mut o = ExecOutcome::default();
+    let mut el: EventLoop<u64> = EventLoop::try_new().expect("loop");
+    far_timer(&el, c, &mut o);
+    let sig = el.get_signal();
+    let polls = Arc::new(AtomicU32::new(0));
+    let gate = Arc::new(AtomicBool::new(false));
+    let waker: Arc<Mutex<Option<Waker>>> = Arc::new(Mutex::new(None));
+    let from_closure = c.case % 2 == 0;
+    let (p2, g2, w2) = (polls.clone(), gate.clone(), waker.clone());
+    let fut = std::future::poll_fn(move |cx: &mut Context<'_>| {
+        p2.fetch_add(1, Ordering::SeqCst);
+        *w2.lock().unwrap() = Some(cx.waker().clone());
+        if g2.load(Ordering::SeqCst) {
+            Poll::Ready(7u32)
+        } else {
+            Poll::Pending
+        }
+    });
+    let act = {
+        let (sig, gate, waker) = (sig.clone(), gate.clone(), waker.clone());
+        move || {
+            sig.stop();
+            gate.store(true, Ordering::SeqCst);
+            if let Some(wk) = waker.lock().unwrap().clone() {
+                wk.wake();
+            }
+        }
+    };
+    let fired = Arc::new(AtomicBool::new(false));
+    if !from_closure {
+        let act = act.clone();
+        let fired = fired.clone();
+        el.handle()
+            .insert_source(calloop::timer::Timer::from_duration(Duration::from_millis(2)), move |_, _, _| {
+                fired.store(true, Ordering::SeqCst);
+                act();
+                calloop::timer::TimeoutAction::Drop
+            })
+            .expect("timer");
+    } else {
+        // something has to end the first wait
+        el.handle().insert_source(calloop::timer::Timer::from_duration(Duration::from_millis(2)), |_, _, _| calloop::timer::TimeoutAction::Drop).expect("timer");
+    }
+    // a watchdog: a hang must not take the shard with it
+    let done = Arc::new(AtomicBool::new(false));
+    let (done2, sig2) = (done.clone(), sig.clone());
+    let wd = std::thread::spawn(move || {
+        let t = Instant::now();
+        while !done2.load(Ordering::SeqCst) {
+            if t.elapsed() > Duration::from_secs(5) {
+                sig2.stop();
+                sig2.wakeup();
+                return true;
+            }
+            std::thread::sleep(Duration::from_millis(2));
+        }
+        false
+    });
+    let mut iters = 0u64;
+    let fired2 = fired.clone();
+    let r = el.block_on(fut, &mut iters, move |n| {
+        *n += 1;
+        if from_closure && !fired2.swap(true, Ordering::SeqCst) {
+            act();
+        }
+    });
+    done.store(true, Ordering::SeqCst);
+    let rescued = wd.join().unwrap_or(false);
+    o.nontrivial = true;
+    o.cov(if from_closure { "block_on:stop-then-wake-from-the-iteration-closure" } else { "block_on:stop-then-wake-from-a-callback" });
+    if rescued {
+        o.inconclusive.push("stop-then-wake scenario: block_on needed the watchdog".into());
+        return o;
+    }
+    let n = polls.load(Ordering::SeqCst);
+    match r {
+        Ok(None) => {
+            if n != 1 {
+                o.alarm("none_iff_stopped_first", "future-polled-after-the-stop-request", format!("stop() was followed by a wake inside a dispatch: block_on returned None but polled the future {} times", n));
+            }
+        }
+        Ok(Some(v)) => o.alarm("none_iff_stopped_first", "some-although-stop-came-first", format!("stop() and then a wake were issued inside a dispatch; block_on returned Some({}) after {} polls", v, n)),
+        Err(e) => o.alarm("block_on", "block_on-returned-error", format!("block_on failed: {}", e)),
+    }
+    o
+}
+
 /// block_on: polled initially and after every wake; Some iff completed, None iff stopped first
 fn run_block_on(c: &SchedCase) -> ExecOutcome {
+    if c.case % 7 == 6 && !cfg!(miri) {
+        return run_stop_then_wake(c);
+    }
     let mut o = ExecOutcome::default();
     let mut rng = Rng::derive(c.seed, c.case, 7);
     let k = c.threads.max(1);
